@@ -92,6 +92,17 @@ fn filled(n: usize, l: Lay, rank: usize, cls: VClass, seed: u64) -> GLWE<Vec<u8>
     g
 }
 
+/// C10 mode: one ample run per backend, the raw output is left in `LAST_OUT` for the cross-backend comparison.
+pub static CROSS_BACKEND: std::sync::atomic::AtomicBool = std::sync::atomic::AtomicBool::new(false);
+thread_local! {
+    pub static LAST_OUT: std::cell::RefCell<Option<Vec<i64>>> = const { std::cell::RefCell::new(None) };
+}
+
+/// parameters stay inside the FFT64 exactness domain: on an FFT64 backend, and on every backend in the cross-backend mode
+fn fft_domain(c: &Case) -> bool {
+    c.be.is_fft() || CROSS_BACKEND.load(std::sync::atomic::Ordering::Relaxed)
+}
+
 /// C11 mode: only the two ample runs (stale destination / scratch contents), no exact-size windows.
 pub static TWO_FILLS_ONLY: std::sync::atomic::AtomicBool = std::sync::atomic::AtomicBool::new(false);
 
@@ -118,6 +129,10 @@ where
         }
         if !w.guards_ok() {
             return Err(Verdict::fail(format!("{opn}|guard-damaged"), format!("backend={} op={opn}: bytes outside the {bytes}-byte scratch window were written\ncase={c:?}", c.be.name())));
+        }
+        if i == 0 && CROSS_BACKEND.load(std::sync::atomic::Ordering::Relaxed) {
+            LAST_OUT.with(|l| *l.borrow_mut() = Some(outs[0].clone()));
+            return Ok(());
         }
         if i == 1 && outs[0] == outs[1] && TWO_FILLS_ONLY.load(std::sync::atomic::Ordering::Relaxed) {
             return Ok(());
@@ -369,7 +384,7 @@ where
         18..=25 => {
             // multiplication family: operands share a radix inside the FFT domain of products
             let r_ = (ro).min(2);
-            let b = (c.kb as usize).min(if c.be.is_fft() { 15 } else { 30 }).max(2);
+            let b = (c.kb as usize).min(if fft_domain(c) { 15 } else { 30 }).max(2);
             let (sa, sb) = ((al.size).clamp(1, 6), (c.rsize as usize % 6) + 1);
             let (la, lb) = (Lay { b, size: sa }, Lay { b, size: sb });
             let lr = Lay { b: if c.radix_mode & 2 == 0 { b } else { c.rb as usize }, size: ((c.skip as usize) % 9) + 1 };
@@ -399,7 +414,7 @@ where
                 }
                 21 => {
                     let sk = secret(n, r_, c.dist, c.seed, 1);
-                    let c5 = crate::c05::Case { be: c.be, op: 0, log_n: c.log_n, b: b as u8, sa: sa as u8, sb: sb as u8, arem: 0, brem: 0, rb: lr.b as u8, rsize: lr.size as u8, cross: false, off: 0, rank: r_ as u8, dist: c.dist, cls_a: cls, cls_b: cls, kb: c.kb.min(if c.be.is_fft() { 14 } else { 40 }), dnum: c.dnum.clamp(1, 4), dsize: c.dsize.clamp(1, 4), extra: c.extra.max(1), noise: c.noise, seed: c.seed };
+                    let c5 = crate::c05::Case { be: c.be, op: 0, log_n: c.log_n, b: b as u8, sa: sa as u8, sb: sb as u8, arem: 0, brem: 0, rb: lr.b as u8, rsize: lr.size as u8, cross: false, off: 0, rank: r_ as u8, dist: c.dist, cls_a: cls, cls_b: cls, kb: c.kb.min(if fft_domain(c) { 14 } else { 40 }), dnum: c.dnum.clamp(1, 4), dsize: c.dsize.clamp(1, 4), extra: c.extra.max(1), noise: c.noise, seed: c.seed };
                     let (tk, _) = match crate::c05::build_tk(m, &c5, &sk, &mut big) {
                         Ok(x) => x,
                         Err(e) => return Verdict::fail("glwe_tensor_key_encrypt_sk|key-cell-wrong", e),
@@ -555,6 +570,49 @@ pub fn test(c0: &Case) -> Verdict {
     with_backend!(c.be, c.log_n, |m| run(m, &c))
 }
 
+/// C10, scheme level: the same case (keys, inputs, seeds; parameters inside the FFT64 exactness domain) on all four backends.
+pub fn test_xb(c0: &Case) -> Verdict {
+    let mut c = c0.clone();
+    c.log_n = c.log_n.min(6);
+    c.be = pzv_be::Be::FftRef;
+    adapt(&mut c);
+    let opn = OPS[(c.op as usize) % OPS.len()];
+    let mut outs: Vec<(pzv_be::Be, Vec<i64>)> = vec![];
+    for be in pzv_be::Be::ALL {
+        let mut cb = c.clone();
+        cb.be = be;
+        LAST_OUT.with(|l| *l.borrow_mut() = None);
+        let v = with_backend!(be, cb.log_n, |m| run(m, &cb));
+        if let Verdict::Fail { .. } = v {
+            // a failure of the operation on its own backend belongs to C03-C05 / C12
+            return Verdict::pass(false, &[opn, "skipped:fails_on_one_backend"]);
+        }
+        match LAST_OUT.with(|l| l.borrow_mut().take()) {
+            Some(o) => outs.push((be, o)),
+            None => return Verdict::pass(false, &[opn, "skipped:no_output"]),
+        }
+    }
+    for (be, o) in &outs[1..] {
+        if *o != outs[0].1 {
+            let first = o.iter().zip(outs[0].1.iter()).position(|(x, y)| x != y).unwrap_or(0);
+            if std::env::var("PZV_DEBUG").is_ok() {
+                eprintln!("DEBUG {}: {:?}\nDEBUG {}: {:?}", outs[0].0.name(), &outs[0].1[..outs[0].1.len().min(24)], be.name(), &o[..o.len().min(24)]);
+            }
+            let fam = if be.is_fft() { "fft64-ref-vs-avx" } else { "fft64-vs-ntt120" };
+            return Verdict::fail(format!("{opn}|{fam}"), format!("op={opn}: {} and {} give different ciphertext bytes for equal keys, inputs and seeds (first difference at raw index {first} of {})\ncase={c:?}", outs[0].0.name(), be.name(), o.len()));
+        }
+    }
+    Verdict::pass(true, &[opn, "four_backends_identical"])
+}
+
+pub fn run_all_c10(ctx: &Ctx) {
+    let t = ctx.tier;
+    CROSS_BACKEND.store(true, std::sync::atomic::Ordering::Relaxed);
+    ctx.run_sub("core_cross_backend", t.pick(4_000, 80_000), 64, crate::c03::strategy, test_xb);
+}
+
+pub const RULE_C10: &str = "scheme level: cases = (one of 30 operations of poulpy-core and of the CMux family, generated gadget shapes / ranks / radices / sizes as in C03-C05, parameters inside the FFT64 exactness domain); keys are encrypted, prepared and the operation executed from identical seeds on FFT64Ref, FFT64Avx, NTT120Ref and NTT120Avx; the result ciphertexts must be identical byte for byte. non-trivial = every case that runs on all four backends.";
+
 pub fn run_all(ctx: &Ctx) {
     let t = ctx.tier;
     ctx.run_sub("core_exact_scratch", t.pick(6_000, 120_000), 64, crate::c03::strategy, test);
@@ -571,6 +629,10 @@ pub const RULE_C11: &str = "core level: cases = (backend, one of 30 operations o
 pub fn replay(ctx: &Ctx, sub: &str, case: &serde_json::Value) -> i32 {
     if ctx.property == "C11" {
         TWO_FILLS_ONLY.store(true, std::sync::atomic::Ordering::Relaxed);
+    }
+    if ctx.property == "C10" {
+        CROSS_BACKEND.store(true, std::sync::atomic::Ordering::Relaxed);
+        return ctx.replay_case::<Case, _>(sub, case, test_xb);
     }
     ctx.replay_case::<Case, _>(sub, case, test)
 }
